@@ -25,6 +25,8 @@ type instrumenter struct {
 	stepPos   []string // index = step id
 	mapRanges []MapRange
 	sites     int
+	// calls of time.Now/Since/Until routed through the clock seam
+	clockSites int
 
 	// synthetic nodes made by rewriteMapRanges
 	synthBlock map[*ast.BlockStmt]bool // no statement points in its list
@@ -107,6 +109,65 @@ func (in *instrumenter) rewriteMapRanges(f *srcFile) {
 				(*list)[i] = in.seam(r, site)
 			}
 		}
+	}
+}
+
+// rewriteClock replaces calls of time.Now, time.Since and time.Until by
+// calls through the verifNow hook, so that the checks own the clock: the
+// library then sees whatever time the harness decides, and "the same packet
+// written later" is an explored dimension instead of a sleep.
+func (in *instrumenter) rewriteClock(f *srcFile) {
+	usesTime := false
+	timeFunc := func(e ast.Expr) string {
+		sel, ok := e.(*ast.SelectorExpr)
+		if !ok {
+			return ""
+		}
+		fn, ok := in.info.Uses[sel.Sel].(*types.Func)
+		if !ok || fn.Pkg() == nil || fn.Pkg().Path() != "time" {
+			return ""
+		}
+		if sig, ok := fn.Type().(*types.Signature); ok && sig.Recv() != nil {
+			return ""
+		}
+		return fn.Name()
+	}
+	now := func() ast.Expr { return &ast.CallExpr{Fun: ast.NewIdent("verifNow")} }
+	ast.Inspect(f.ast, func(n ast.Node) bool {
+		c, ok := n.(*ast.CallExpr)
+		if !ok {
+			return true
+		}
+		switch timeFunc(c.Fun) {
+		case "Now":
+			if len(c.Args) == 0 {
+				c.Fun = ast.NewIdent("verifNow")
+				in.clockSites++
+				usesTime = true
+			}
+		case "Since":
+			if len(c.Args) == 1 {
+				c.Fun = &ast.SelectorExpr{X: now(), Sel: ast.NewIdent("Sub")}
+				in.clockSites++
+				usesTime = true
+			}
+		case "Until":
+			if len(c.Args) == 1 {
+				arg := c.Args[0]
+				c.Fun = &ast.SelectorExpr{X: &ast.ParenExpr{X: arg}, Sel: ast.NewIdent("Sub")}
+				c.Args = []ast.Expr{now()}
+				in.clockSites++
+				usesTime = true
+			}
+		}
+		return true
+	})
+	if usesTime {
+		// keep the import used whatever else the file did with it
+		f.ast.Decls = append(f.ast.Decls, &ast.GenDecl{Tok: token.VAR, Specs: []ast.Spec{&ast.ValueSpec{
+			Names:  []*ast.Ident{ast.NewIdent("_")},
+			Values: []ast.Expr{&ast.CallExpr{Fun: &ast.SelectorExpr{X: ast.NewIdent("time"), Sel: ast.NewIdent("Duration")}, Args: []ast.Expr{&ast.BasicLit{Kind: token.INT, Value: "0"}}}},
+		}}})
 	}
 }
 
